@@ -87,7 +87,7 @@ def main():
                 break
             rec = dict(file=f, k=k, desc=open(f"{d}/{k}.txt").read().strip(), verdicts={})
             shutil.copy(f"{d}/{k}.go", f"{wt}/{f}")
-            rec["diff"] = sh(["git", "-C", wt, "diff", "-U1", "--", f])[1][-1500:]
+            rec["diff"] = sh(["git", "-C", wt, "diff", "-U1", "--", f])[1][-6000:]
             mod = wt + "/schema" if f.startswith("schema/") else wt
             rc, o = sh("go build ./... && go build -tags verif ./...", cwd=mod, timeout=300)
             if rc != 0:
